@@ -569,6 +569,9 @@ class Surrogates(Cached):
         :return: the Pearson correlation test matrix.
         """
         (N, n_time) = original_data.shape
+        if surrogates.shape != original_data.shape:
+            raise ValueError(
+                "original_data and surrogates must have the same shape")
         return _test_pearson_correlation(to_cy(original_data, DFIELD),
                                          to_cy(surrogates, DFIELD),
                                          N, n_time)
